@@ -1,7 +1,7 @@
 (* Case runner for C17: decodes harness cases, runs the model of Report.Stacks, judges the
    implementation's StackSet (direct dump, or parsed back from the JSON of the /flamegraph page). *)
 From Coq Require Import QArith Qabs.
-From PV Require Import M_Profile M_Measure S_Measure Gen.Gen_UnitTable M_Stacks S_Stacks.
+From PV Require Import M_Profile M_Measure S_Measure Gen.Gen_UnitTable M_Stacks S_Stacks M_Handoff S_Handoff.
 Open Scope string_scope.
 Open Scope Z_scope.
 
@@ -65,11 +65,42 @@ Definition run_C17 (i : term) : term :=
                               (profile_of (gn i 0))).
 
 (* everything is compared exactly, except Scale (float64 in Go, exact rational in the model) *)
+(* page-sized texts are shipped as a list of printable / non-printable runs (harness c17Text) *)
+Definition cat17 (l : list string) : string := fold_right append "" l.
+
+(* The web path's observable has an 8th element [[skipped; rest of tail]; call end; harness tokenizer's end; literals]:
+   tail = the page from the first content byte of the script element that calls stackViewer(...) *)
+Definition handoff_of (o : term) : option term :=
+  match gl o with [_; _; _; _; _; _; _; h] => Some h | _ => None end.
+
+(* correspondence of the hand-off model: the string literals in the page are what [json_string_html]
+   produces for their values, and the harness's HTML tokenizer ended the script element where the
+   specification's tokenizer does *)
+Definition handoff_corr (o : term) : bool :=
+  match handoff_of o with
+  | None => true
+  | Some h =>
+      forallb (fun pr => String.eqb (json_string_html (gs (gn pr 0))) (gs (gn pr 1))) (gl (gn h 3))
+      && match script_data_end_from (Z.to_nat (gz (gn (gn h 0) 0))) (gs (gn (gn h 0) 1)) with
+         | Some e => Z.of_nat e =? gz (gn h 2)
+         | None => gz (gn h 2) <? 0
+         end
+  end.
+
+(* the client receives the call: the tokenizer closes the element, and not before the call's end *)
+Definition handoff_spec (o : term) : bool :=
+  match handoff_of o with
+  | None => true
+  | Some h => (0 <=? gz (gn h 1)) && (0 <=? gz (gn (gn h 0) 0))
+              && script_delivers_from (Z.to_nat (gz (gn (gn h 0) 0))) (gs (gn (gn h 0) 1)) (Z.to_nat (gz (gn h 1)))
+  end.
+
 Definition eqv_one (m o : term) : bool :=
-  match gl m, gl o with
+  match gl m, firstn 7 (gl o) with
   | [mt; ms; mty; mu; mst; msr; mn], [ot; os; oty; ou; ost; osr; on] =>
-      term_eqb mt ot && qclose (to_Q17 ms) (to_Q17 os) && term_eqb mty oty && term_eqb mu ou
-      && term_eqb mst ost && term_eqb msr osr && term_eqb mn on
+      (Nat.leb (List.length (gl o)) 8)
+      && term_eqb mt ot && qclose (to_Q17 ms) (to_Q17 os) && term_eqb mty oty && term_eqb mu ou
+      && term_eqb mst ost && term_eqb msr osr && term_eqb mn on && handoff_corr o
   | _, _ => false
   end.
 
@@ -99,9 +130,9 @@ Definition nonneg (o : term) : bool :=
   && forallb (fun s => forallb (fun e => (0 <=? gz (gn e 0)) && (0 <=? gz (gn e 1))) (gl (gn s 5))) (gl (gn o 5)).
 
 Definition stackset_of (o : term) : option (Z * stackset) :=
-  match gl o with
+  match firstn 7 (gl o) with
   | [_; _; _; _; _; _; _] =>
-      if nonneg o then
+      if Nat.leb (List.length (gl o)) 8 && nonneg o && handoff_spec o then
         Some (gz (gn o 6), {| ss_total := gz (gn o 0); ss_type := gs (gn o 2);
                               ss_stacks := map stack_of (gl (gn o 4)); ss_sources := map source_of (gl (gn o 5)) |})
       else None
